@@ -39,6 +39,8 @@ pub struct ExploreResult {
     pub outcomes: HashSet<u64>,
     pub notes: BTreeMap<String, u64>,
     pub violation: Option<ViolationRec>,
+    /// tag -> (number of violating schedules, first witness)
+    pub known_hits: BTreeMap<String, (u64, ViolationRec)>,
     pub samples: Vec<(Vec<u32>, Vec<TraceEntry>)>,
     pub timed_out: bool,
     pub non_elidable: Vec<u32>,
@@ -46,6 +48,9 @@ pub struct ExploreResult {
 }
 
 pub struct Limits {
+    /// tags of violations that are listed as known findings for this case: they are counted
+    /// and the exploration continues (anything else ends the exploration)
+    pub known_tags: Vec<String>,
     pub deadline: Instant,
     /// (worker index, worker count): top-level sub-trees are dealt round robin
     pub worker: (u32, u32),
@@ -56,6 +61,14 @@ struct Frame {
     points: Vec<Point>,
     next_i: usize,
     next_alt: u32,
+}
+
+/// `tag: details` -> tag (the stable part of an oracle message); other messages: kind only
+pub fn tag_of(kind: &str, message: &str) -> String {
+    match message.split_once(':') {
+        Some((t, _)) if t.len() <= 48 && !t.contains(' ') => format!("{kind}/{t}"),
+        _ => kind.to_string(),
+    }
 }
 
 fn failure_kind(f: &Failure) -> (&'static str, String) {
@@ -95,10 +108,11 @@ pub fn explore(
             // root execution
             let r = rt::run_once(&cfg, &[], &[], &ne, &body);
             if let Some(v) = account(&mut res, &mut st, &r, b, &cfg, &ne, &body) {
-                res.violation = Some(v);
-                res.stages.push(st);
-                res.non_elidable = sorted(&non_elidable);
-                return res;
+                if !known(&mut res, limits, v) {
+                    res.stages.push(st);
+                    res.non_elidable = sorted(&non_elidable);
+                    return res;
+                }
             }
             if learn(&mut non_elidable, &r) {
                 res.restarts += 1;
@@ -152,10 +166,11 @@ pub fn explore(
                 };
                 let r = rt::run_once(&cfg, &prefix, &sigs, &ne, &body);
                 if let Some(v) = account(&mut res, &mut st, &r, b, &cfg, &ne, &body) {
-                    res.violation = Some(v);
-                    res.stages.push(st);
-                    res.non_elidable = sorted(&non_elidable);
-                    return res;
+                    if !known(&mut res, limits, v) {
+                        res.stages.push(st);
+                        res.non_elidable = sorted(&non_elidable);
+                        return res;
+                    }
                 }
                 if learn(&mut non_elidable, &r) {
                     res.restarts += 1;
@@ -173,6 +188,24 @@ pub fn explore(
     }
     res.non_elidable = sorted(&non_elidable);
     res
+}
+
+/// a violation listed as a known finding is counted and the search goes on; returns false for
+/// an unlisted one (which is stored as THE violation of this exploration)
+fn known(res: &mut ExploreResult, limits: &Limits, v: ViolationRec) -> bool {
+    let tag = tag_of(&v.kind, &v.message);
+    if limits.known_tags.iter().any(|t| *t == tag) {
+        if v.fatal {
+            // parked model threads of the abandoned execution can never be reused
+            rt::abandon_pool();
+        }
+        let e = res.known_hits.entry(tag).or_insert((0, v));
+        e.0 += 1;
+        true
+    } else {
+        res.violation = Some(v);
+        false
+    }
 }
 
 fn sorted(s: &HashSet<u32>) -> Vec<u32> {
